@@ -154,6 +154,40 @@ func Run(tier string) int {
 		}
 		rec(nil)
 	}
+	// number filters with arithmetic over the stream's own fields: every sum of up to three signed
+	// variables plus a constant, as exact value, lower bound and upper bound, plain, negated and in
+	// conjunctions of two (the shapes the common-factor / contradiction simplification rewrites)
+	{
+		arith := arithAtoms()
+		for _, a := range arith {
+			for _, n := range []*ref.Node{ref.A(a), ref.Not(ref.A(a))} {
+				t := n.Text()
+				if !seenText[t] {
+					seenText[t] = true
+					cases = append(cases, caseT{n, t, []string{"byteswide"}})
+					famCounts["number filters with field arithmetic (plain and negated)"]++
+				}
+			}
+		}
+		// pairs over a reduced set: every 7th atom
+		var red []*ref.Atom
+		for i, a := range arith {
+			if i%7 == 0 || tier == "thorough" && i%3 == 0 {
+				red = append(red, a)
+			}
+		}
+		for i, a := range red {
+			for _, b := range red[i+1:] {
+				n := ref.And(ref.A(a), ref.A(b))
+				t := n.Text()
+				if !seenText[t] {
+					seenText[t] = true
+					cases = append(cases, caseT{n, t, []string{"byteswide"}})
+					famCounts["conjunctions of two number filters with field arithmetic"]++
+				}
+			}
+		}
+	}
 	uniCache := map[string][]*ref.Rec{}
 	job := mc.ShardedJob{
 		N:        len(cases),
@@ -297,6 +331,76 @@ func Run(tier string) int {
 	return rep.Finish()
 }
 
+// arithAtoms enumerates number filters on cbytes / sbytes whose value is a sum of variables and a constant.
+func arithAtoms() []*ref.Atom {
+	type term struct {
+		neg bool
+		v   string // "cbytes" | "sbytes"
+	}
+	vars := []string{"cbytes", "sbytes"}
+	var sums [][]term
+	for _, a := range vars {
+		sums = append(sums, []term{{false, a}})
+		for _, bn := range []bool{false, true} {
+			for _, b := range vars {
+				sums = append(sums, []term{{false, a}, {bn, b}})
+				for _, cn := range []bool{false, true} {
+					for _, c := range vars {
+						sums = append(sums, []term{{false, a}, {bn, b}, {cn, c}})
+					}
+				}
+			}
+		}
+	}
+	consts := []int64{0, 1, 2, 3, 5, -1, -2, -3, -5}
+	var out []*ref.Atom
+	for _, key := range vars {
+		for _, sum := range sums {
+			for _, k := range consts {
+				var sb strings.Builder
+				for i, t := range sum {
+					if t.neg {
+						sb.WriteString("-")
+					} else if i > 0 {
+						sb.WriteString("+")
+					}
+					sb.WriteString("@" + t.v + "@")
+				}
+				if k > 0 {
+					fmt.Fprintf(&sb, "+%d", k)
+				} else if k < 0 {
+					fmt.Fprintf(&sb, "%d", k)
+				}
+				expr := sb.String()
+				sum, k, key := sum, k, key
+				val := func(r *ref.Rec) (v, e int64) {
+					get := func(n string) int64 {
+						if n == "cbytes" {
+							return int64(r.CBytes)
+						}
+						return int64(r.SBytes)
+					}
+					e = k
+					for _, t := range sum {
+						if t.neg {
+							e -= get(t.v)
+						} else {
+							e += get(t.v)
+						}
+					}
+					return get(key), e
+				}
+				out = append(out,
+					&ref.Atom{Text: key + ":" + expr, Eval: func(r *ref.Rec) bool { v, e := val(r); return v == e }},
+					&ref.Atom{Text: key + ":" + expr + ":", Eval: func(r *ref.Rec) bool { v, e := val(r); return v >= e }},
+					&ref.Atom{Text: key + "::" + expr, Eval: func(r *ref.Rec) bool { v, e := val(r); return v <= e }},
+				)
+			}
+		}
+	}
+	return out
+}
+
 func descRec(r *ref.Rec, groups []string) string {
 	var parts []string
 	for _, g := range groups {
@@ -305,7 +409,7 @@ func descRec(r *ref.Rec, groups []string) string {
 			parts = append(parts, fmt.Sprintf("id=%d", r.ID))
 		case "port":
 			parts = append(parts, fmt.Sprintf("cport=%d sport=%d", r.CPort, r.SPort))
-		case "bytes":
+		case "bytes", "byteswide":
 			parts = append(parts, fmt.Sprintf("cbytes=%d sbytes=%d", r.CBytes, r.SBytes))
 		case "host":
 			parts = append(parts, fmt.Sprintf("chost=%s shost=%s", r.CHost, r.SHost))
